@@ -88,7 +88,7 @@ def _strip(name, tier, sn, nl, modular=False, default_arm=False, yaml=False, pro
                    "escaped line breaks in a value: safety only"])
 _strip("c11_strip_S5", "quick", 5, 2)
 _strip("c11_strip_mod_S8", "quick", 8, 3, modular=True)
-_strip("c11_strip_default_arm_S6", "quick", 6, 2, modular=True, default_arm=True)   # lines of another kind: key line iff scan_meta_line (contract) says so
+_strip("c11_strip_default_arm_S6", "quick", 6, 2, modular=True, default_arm=True, props=("C11", "C01", "C02"))   # lines of another kind: key line iff scan_meta_line (contract) says so
 _strip("c11_strip_yaml_S8", "quick", 8, 3, modular=True, yaml=True, props=("C11", "C01", "C20"))   # YAML-fenced block: the fence lines carry no record and no value text
 _strip("c11_strip_mod_S10", "thorough", 10, 3, modular=True)   # (S12 was measured once: ok, 2229 s -- too close to the timeout to register)
 
